@@ -68,6 +68,7 @@ type Sim struct {
 	free    bool // pass-through (teardown, or sequential worlds)
 	root    *Task
 	wake    chan struct{}
+	closing bool // teardown has begun: goroutines run freely, nothing is logged or judged
 	start   time.Time
 
 	Viol   *Violation
@@ -242,6 +243,14 @@ func (s *Sim) removeLocked(tk *Ticket) {
 	}
 }
 
+// Gate parks the calling task right after a call into the code under test
+// has returned, before any harness bookkeeping runs. One release can wake
+// several goroutines at once (a shared flight completing, a context ending);
+// the gate makes them run their harness code one at a time, in canonical
+// ticket order, so that logs, stamps and counters do not depend on how the Go
+// scheduler interleaved them.
+func (s *Sim) Gate(site string) { s.Park("ret", site, nil, nil, nil) }
+
 // Lock is the verifhook.OnLock implementation.
 func (s *Sim) Lock(l interface {
 	Lock()
@@ -401,6 +410,10 @@ func (s *Sim) Stall(d time.Duration) {
 func (s *Sim) Note(format string, a ...any) {
 	msg := fmt.Sprintf(format, a...)
 	s.mu.Lock()
+	if s.closing {
+		s.mu.Unlock()
+		return
+	}
 	if len(s.Sched) < 400 {
 		s.Sched = append(s.Sched, fmt.Sprintf("%d t=%v %s", s.Step, time.Since(s.start), msg))
 	}
@@ -409,20 +422,38 @@ func (s *Sim) Note(format string, a ...any) {
 	s.mu.Unlock()
 }
 
+// Closing marks the beginning of teardown. From here on parked goroutines
+// are released all at once and run unscheduled, so their events are neither
+// logged nor judged (only FailLate, used by teardown checks, still records).
+func (s *Sim) Closing() { s.mu.Lock(); s.closing = true; s.mu.Unlock() }
+
 // Log appends a canonical event on behalf of the calling task.
 func (s *Sim) Log(format string, a ...any) {
 	t := s.CurTask()
 	msg := fmt.Sprintf(format, a...)
 	s.mu.Lock()
+	if s.closing {
+		s.mu.Unlock()
+		return
+	}
 	t.seq++
 	s.events = append(s.events, Event{s.Step, t.Name, t.seq, msg})
+	s.mu.Unlock()
+}
+
+// FailLate records a violation found by a teardown check.
+func (s *Sim) FailLate(oracle, msg string) {
+	s.mu.Lock()
+	if s.Viol == nil {
+		s.Viol = &Violation{Oracle: oracle, Step: s.Step, Msg: msg}
+	}
 	s.mu.Unlock()
 }
 
 // Fail records the first violation.
 func (s *Sim) Fail(oracle, msg string) {
 	s.mu.Lock()
-	if s.Viol == nil {
+	if s.Viol == nil && !s.closing {
 		s.Viol = &Violation{Oracle: oracle, Step: s.Step, Msg: msg}
 	}
 	s.mu.Unlock()
@@ -436,10 +467,22 @@ func (s *Sim) Failed() bool {
 }
 
 // Fault counts a fault that actually fired.
-func (s *Sim) Fault(kind string) { s.mu.Lock(); s.Faults[kind]++; s.mu.Unlock() }
+func (s *Sim) Fault(kind string) {
+	s.mu.Lock()
+	if !s.closing {
+		s.Faults[kind]++
+	}
+	s.mu.Unlock()
+}
 
 // Probe counts a reach probe.
-func (s *Sim) Probe(name string) { s.mu.Lock(); s.Probes[name]++; s.mu.Unlock() }
+func (s *Sim) Probe(name string) {
+	s.mu.Lock()
+	if !s.closing {
+		s.Probes[name]++
+	}
+	s.mu.Unlock()
+}
 
 // Drain switches to pass-through and releases every ticket until none is
 // left. Worlds cancel their contexts and fail their stubs first.
